@@ -65,3 +65,11 @@ reg("C15", "translation_validation",
     "specification (spec/UTF8.tla transcribes utf8.DecodeRune); plus a sweep of the code points with the real engine against regexp",
     "Trusted: the exporter (each disagreement is re-observed on the real engine), TLC, regexp as arbiter. Descriptors are the 52 of spec/MC_UTF8.tla.",
     "translation validation: exported artefact of the implementation checked by TLC against the TLA+ specification", "DESIGN.md §6 C15")
+
+reg("C06", "model_checking",
+    "TLC checks the Pool protocol model exhaustively (exclusive ownership, no state both held and pooled, termination) and prints every complete interleaving; "
+    "schedules are replayed on real goroutines sharing one Regex with the verif gates (before each atomic operation of get/putSearchState and inside every "
+    "scratch section), and the recorded H-pool/H-scr events are validated by TLC against Trace_Pool: hand-off as in the model, every mutable scratch object "
+    "used by at most one call in progress, every result equal to the sequential result; supplemented by free-running goroutines under the race detector",
+    "Data-race freedom proper is observed, not proved. 12 representative patterns x 6 APIs; 2-3 goroutines.",
+    "TLA+ protocol model; TLC-generated schedules replayed with scheduler gates; trace validation; race detector", "DESIGN.md §6 C06")
